@@ -32,23 +32,7 @@ class FontKey(Harness):
         self.doc = 'two fonts with symbolic name (1..%d characters), size (1..99) and bold flag: Fonts::set_style must give them the same index only if they are equal (md5 is an injective free symbol, so equal keys mean equal key text)' % self.maxname
         self.bounds = {'name_chars': [1, self.maxname], 'name_alphabet': '0-9, A-Z and the punctuation between', 'size': [1, 99], 'bold': [False, True]}
     def setup(self, it):
-        cm.install(it)
-        import re
-        def digest(it_, data):
-            d = deref_all(data)
-            from engine.models import str_bytes
-            if isinstance(d, SStr):
-                bs = []
-                for c in d.chars:
-                    if isinstance(c, HexText):
-                        if not hasattr(c, 'term'): c.term = cm.Term('HEX', (c.ch,), 32)
-                        bs += c.term.bytes
-                    else: bs += str_bytes(it_, SStr([c]))
-            else: bs = list(d)
-            return cm.mk('MD5', bs, n=16)
-        def lower_hex(it_, g): return [HexText(cm.chunks(list(deref_all(g))))]
-        it.models = [(re.compile(r'<md5::digest::core_api::CoreWrapper<md5::Md5Core> as md5::Digest>::digest::<.*>'), digest, False),
-                     (re.compile(r"core::fmt::rt::Argument::<'_>::new_lower_hex::<md5::digest::generic_array::GenericArray<.*>>"), lower_hex, False)] + list(it.models)
+        cm.install(it); cm.install_digests(it)
     def run(self, it, ctx, res):
         it.world = cm.World()
         fa, a = sym_font(it, ctx, 'a_', self.maxname); fb, b = sym_font(it, ctx, 'b_', self.maxname)
@@ -136,13 +120,7 @@ class FillKey(FontKey):
         got = [native.unhx(x) for x in r[1]]
         return got != [enc(case['a']), enc(case['b'])], 'cells A1/A2 with fills %r / %r after save and reload: %r' % (enc(case['a']), enc(case['b']), got)
 
-class HexText:
-    def __init__(self, ch): self.ch = ch
-    def __eq__(self, o): return cm.eq_chunks(None, self.ch, o.ch) if isinstance(o, HexText) else False
-    def __ne__(self, o):
-        r = self.__eq__(o)
-        return (not r) if isinstance(r, bool) else z3.Not(r)
-    def __hash__(self): return 0
+HexText = cm.HexText
 
 def harnesses(tier):
     return [FontKey(tier), FillKey(tier)]
